@@ -57,7 +57,11 @@ func (C05) Rule() string {
 }
 
 var c05Files = []string{"var/lib/db/status", "var/lib/db/extra", "var/lib/alt/status", "etc/pkgs"}
-var c05Names = []string{"zlib", "curl", "bash", "openssl"}
+// "name:arch" entries (wave 8, C05-w8-2) become packages with the same Name and Version as their
+// plain sibling but a different PURL (arch qualifier)
+var c05Names = []string{"zlib", "curl", "bash", "openssl", "zlib:i386", "curl:arm64"}
+
+type listMeta struct{ Arch string }
 var c05Vers = []string{"1.2.3", "1.2.4", "2.0.0", "1.2.5"}
 
 func renderPkgs(pkgs []string) string {
@@ -301,15 +305,27 @@ func (e *listExtractor) Extract(ctx context.Context, in *filesystem.ScanInput) (
 	}
 	var inv inventory.Inventory
 	for _, nv := range parseList(b) {
-		inv.Packages = append(inv.Packages, &extractor.Package{Name: nv[0], Version: nv[1], Locations: []string{in.Path}})
+		p := &extractor.Package{Name: nv[0], Version: nv[1], Locations: []string{in.Path}}
+		if base, arch, ok := strings.Cut(nv[0], ":"); ok {
+			p.Name, p.Metadata = base, &listMeta{Arch: arch}
+		}
+		inv.Packages = append(inv.Packages, p)
 	}
 	return inv, nil
 }
 func (e *listExtractor) purlOf(name, ver string) string {
-	return (&purl.PackageURL{Type: e.spec.PurlType, Name: name, Version: ver}).String()
+	pu := &purl.PackageURL{Type: e.spec.PurlType, Name: name, Version: ver}
+	if base, arch, ok := strings.Cut(name, ":"); ok {
+		pu.Name, pu.Qualifiers = base, purl.QualifiersFromMap(map[string]string{"arch": arch})
+	}
+	return pu.String()
 }
 func (e *listExtractor) ToPURL(p *extractor.Package) *purl.PackageURL {
-	return &purl.PackageURL{Type: e.spec.PurlType, Name: p.Name, Version: p.Version}
+	pu := &purl.PackageURL{Type: e.spec.PurlType, Name: p.Name, Version: p.Version}
+	if m, ok := p.Metadata.(*listMeta); ok {
+		pu.Qualifiers = purl.QualifiersFromMap(map[string]string{"arch": m.Arch})
+	}
+	return pu
 }
 func (e *listExtractor) Ecosystem(p *extractor.Package) string { return "sim" }
 
@@ -464,7 +480,7 @@ func (C05) Run(t *testing.T, scAny any) *sim.Outcome {
 			continue
 		}
 		loc := p.Locations[0]
-		pu := x.purlOf(p.Name, p.Version)
+		pu := x.ToPURL(p).String()
 		if !present(x, last, loc)[pu] {
 			panic(fmt.Sprintf("harness: reported package %s at %s is not in the final view by direct parse; %s", pu, loc, ctxs))
 		}
